@@ -192,7 +192,7 @@ pub fn snr_strategy() -> impl Strategy<Value = i8> {
 }
 
 pub fn cfg_strategy() -> impl Strategy<Value = DevCfg> {
-    (0usize..9, 0usize..3, proptest::option::weighted(0.4, (1u8..=8, prop_oneof![Just(1usize), 2usize..5])), 0usize..BOARDS.len()).prop_map(|(ri, fk, bias, b)| {
+    (0usize..9, 0usize..3, proptest::option::weighted(0.4, (1u8..=8, prop_oneof![4 => Just(1usize), 4 => 2usize..5, 1 => Just(0usize), 1 => Just(255usize)])), 0usize..BOARDS.len()).prop_map(|(ri, fk, bias, b)| {
         let region = REGIONS[ri];
         // one configuration in eight has a radio buffer smaller than a full frame (64 or 255 bytes)
         let small = (ri + fk + b) % 8 == 3;
